@@ -1,32 +1,58 @@
 (* C11 correspondence cases: the input together with what the implementation answered *)
 From FB Require Export C11.Model.
 
+(* Compact form of an answer: the harness has checked (in Rust, cell by cell) that the
+   implementation's result is the input with the column of class names in the chosen namespace
+   replaced by [col] (one entry per class, in IndexMap order); the model value is rebuilt here
+   and compared IN FULL with the model's answer.  When that check fails the harness sends the
+   whole result instead (CExtend / CContract). *)
+Definition col := list (option str).
+
+Fixpoint set_col (cs : list class) (ns : nat) (c : col) : list class :=
+  match cs, c with
+  | k :: cs', x :: c' =>
+      mkClass (set_nth (c_names k) ns x) (c_doc k) (c_fields k) (c_methods k) :: set_col cs' ns c'
+  | _, _ => []
+  end.
+Definition with_col (M : mappings) (ns : nat) (c : col) : mappings :=
+  mkMappings (ms_ns M) (ms_doc M) (set_col (ms_classes M) ns c).
+
 Inductive case :=
 | CExtend (M : mappings) (name : str) (r : res mappings)
     (* Mappings::extend_inner_class_names(name); classes in IndexMap iteration order *)
 | CContract (M : mappings) (name : str) (r : res mappings)
     (* Mappings::contract_inner_class_names(name) *)
-| CRound (M : mappings) (name : str) (same : res bool)
-    (* contract(extend(M)) == M on the implementation (Err when extend failed) *)
-| CHyp (M : mappings) (ns : N) (simple wellformed : bool)
-    (* the harness' own evaluation of the theorems' hypotheses on this input *)
+| CRun (M : mappings) (name : str) (ext con conext : res col) (simple wellformed : bool)
+    (* extend(M), contract(M), contract(extend(M)) in compact form (conext = Err when extend
+       failed), and the harness' own evaluation of the theorems' hypotheses on this input *)
 | CJoin (p i r : str)
     (* ObjClassName::from_inner_class *)
 | CInner (s : str) (parent inner : option str).
     (* get_inner_class_parent / get_inner_class_name *)
 
-Definition round_trip (M : mappings) (name : str) : res bool :=
-  match extend M name with
-  | Ok M' => match contract M' name with Ok M'' => Ok (mappings_eqb M'' M) | Err => Err end
+Definition rebuild (M : mappings) (ons : option nat) (r : res col) : res mappings :=
+  match r with
   | Err => Err
+  | Ok c => match ons with Some ns => Ok (with_col M ns c) | None => Ok M end
   end.
 
 Definition check (c : case) : bool :=
   match c with
   | CExtend M name r => res_eqb mappings_eqb (extend M name) r
   | CContract M name r => res_eqb mappings_eqb (contract M name) r
-  | CRound M name b => res_eqb Bool.eqb (round_trip M name) b
-  | CHyp M ns s w => Bool.eqb (simple_names M (N.to_nat ns)) s && Bool.eqb (wf M) w
+  | CRun M name ext con conext simple wellformed =>
+      let ons := ns_index (ms_ns M) name in
+      res_eqb mappings_eqb (extend M name) (rebuild M ons ext)
+      && res_eqb mappings_eqb (contract M name) (rebuild M ons con)
+      && match extend M name with
+         | Ok E => res_eqb mappings_eqb (contract E name) (rebuild M ons conext)
+         | Err => match conext with Err => true | Ok _ => false end
+         end
+      && match ons with
+         | Some ns => Bool.eqb (simple_names M ns) simple
+         | None => true
+         end
+      && Bool.eqb (wf M) wellformed
   | CJoin p i r => str_eqb (join_inner p i) r
   | CInner s p i =>
       opt_eqb str_eqb (match split_inner s with Some (p', _) => Some p' | None => None end) p
